@@ -445,14 +445,17 @@ def reload_history(cell, seed):
     mod, donor = build(cell), build(cell2)
     # first use (forward + backward) with the original taps
     try:
-        if cell['dir'] == 'forward':
-            x = util.make_input('randn', [1, 2] + cell['shape'], seed).requires_grad_(True)
-            y = mod(x)
-            sum(o.sum() for o in util.flat_outputs(y)).backward()
-        else:
-            yl, yh = c10.make_pyramid(dict(cell, N=1, C=2), 'randn', seed)
-            yl.requires_grad_(True)
-            mod((yl, yh)).sum().backward()
+        for N, C in ((1, 1), (2, 2), (2, 3)):        # the channel counts the checks below will use
+            if cell['dir'] == 'forward':
+                x = util.make_input('randn', [N, C] + cell['shape'], seed).requires_grad_(True)
+                y = mod(x)
+                sum(o.sum() for o in util.flat_outputs(y)).backward()
+            else:
+                yl, yh = c10.make_pyramid(dict(cell, N=N, C=C), 'randn', seed)
+                yl.requires_grad_(True)
+                for h in yh:
+                    h.requires_grad_(True)
+                mod((yl, yh)).sum().backward()
     except Exception:
         return []
     mod.load_state_dict(donor.state_dict())
